@@ -472,6 +472,45 @@ def _shared_unnamed(variant):
     return None
 
 
+def _class_crossref(variant):
+    """A class-defined Sim whose attributes refer to one another *by object* (a Dc / sweep over a Param defined above, an
+    analysis listed as the inner analysis of a sweep / Monte Carlo): the names the class body gives are the names exported,
+    wherever the object is used."""
+    import hdl21 as h
+    import hdl21.sim as hs
+
+    try:
+        tb = mk_tb(h, hs, "ok", "Tb")
+        xp = hs.Param(val=5)
+        tr = hs.Tran(tstop=1)
+        ns = dict(tb=tb, x=xp, mytran=tr)
+        if variant == "dc":
+            ns["mydc"] = hs.Dc(var=xp, sweep=hs.LinearSweep(0, 1, 1))
+        elif variant == "sweep":
+            ns["mysw"] = hs.SweepAnalysis(inner=[tr], var=xp, sweep=hs.LinearSweep(0, 1, 1))
+        else:
+            ns["mymc"] = hs.MonteCarlo(inner=[tr, hs.Op()], npts=2)
+        inp = hs.to_proto(hs.sim(type("CrossSim", (), ns)))
+        pars = [c.param.name for c in inp.ctrls if c.WhichOneof("ctrl") == "param"]
+        if pars != ["x"]:
+            return f"parameter controls exported as {pars}, the class body calls it 'x'"
+        tops = [_all_names(a, []) for a in inp.an]
+        if tops[0] != ["mytran"]:
+            return f"the analysis bound to `mytran` is exported as {tops[0]}"
+        if variant == "dc":
+            if inp.an[1].dc.indep_name != "x":
+                return f"Dc over the Param bound to `x` sweeps {inp.an[1].dc.indep_name!r}"
+        elif variant == "sweep":
+            if inp.an[1].sweep.variable != "x" or tops[1][1:] != ["mytran"]:
+                return f"the sweep over `x` with inner analysis `mytran` is exported with variable {inp.an[1].sweep.variable!r} and inner names {tops[1][1:]}"
+        else:
+            if tops[1][1] != "mytran" or len(set(tops[1])) != len(tops[1]):
+                return f"the Monte Carlo with inner analysis `mytran` is exported with inner names {tops[1][1:]}"
+    except Exception as e:
+        return "raised: " + short_exc(e)
+    return None
+
+
 def _same_named_tbs(order):
     """Two different testbenches whose bare names coincide (one defined in a Python module, one through exec - as in a
     notebook): both are in the package, and each SimInput's top is its own testbench."""
@@ -558,6 +597,12 @@ def run(ctx):
         ctx.fam("shared_unnamed_analysis", cases=1)
         if r:
             ctx.violation(dict(style="-", what="shared unnamed analysis: " + r[:40], save_target=""), dict(shared_unnamed=v), r)
+    for v in ("dc", "sweep", "monte"):
+        r = _class_crossref(v)
+        ctx.count(states=1, transitions=2, traces_validated_against_impl=1)
+        ctx.fam("class_body_cross_references", cases=1)
+        if r:
+            ctx.violation(dict(style="class", what="cross reference: " + r[:40], save_target=""), dict(class_crossref=v), r)
     for v in ("12", "21"):
         r = _same_named_tbs(v)
         ctx.count(states=1, transitions=2, traces_validated_against_impl=1)
@@ -576,6 +621,8 @@ def replay(body):
         r = _bad_tb(c["bad_tb"])
     elif "shared_unnamed" in c:
         r = _shared_unnamed(c["shared_unnamed"])
+    elif "class_crossref" in c:
+        r = _class_crossref(c["class_crossref"])
     elif "same_named_tbs" in c:
         r = _same_named_tbs(c["same_named_tbs"])
     else:
